@@ -191,6 +191,23 @@ pub fn run_which(report: &Report, thorough: bool, which: Which) -> Evidence {
         parts.insert("W4_bases_times_suffixes".into(), json!({"bases": bases.len(), "suffix_keys": sfx.len(), "wrappings": wraps.len()}));
     }
 
+    // W5: every English emoji name (the emoji clause meets real words here: names that are also bases + suffixes, names with
+    // an auto-correct entry), bare and - every fourth one - wrapped
+    if crate::par::part_enabled("W5") {
+        let mut names: Vec<String> = emojicon::internal::emojis().keys().map(|k| k.to_string()).filter(|k| !k.is_empty() && k.chars().all(|c| crate::keys::code_for_char(c).is_some())).collect();
+        names.sort();
+        let chunks: Vec<&[String]> = names.chunks(32).collect();
+        run("W5", &two, chunks.len(), &|w, j| {
+            for (i, k) in chunks[j].iter().enumerate() {
+                w.type_word(k);
+                if i % 4 == 0 || thorough {
+                    w.type_word(&format!("({}).", k));
+                }
+            }
+        });
+        parts.insert("W5_emoji_names".into(), json!({"names": names.len(), "configurations": 2}));
+    }
+
     let t = total.lock().unwrap();
     let id = if which == Which::C07 { "C07" } else { "C08" };
     let mut ev = Evidence::new(id, &report.tier, "model_checking");
